@@ -36,6 +36,9 @@ namespace XKoJen
         m_receiver_preamble_1 = m_receiver_preamble >> 8;
 #if defined(__arm__)
         m_largest_message_size = receiver.LargestMessageSize();
+        // A message has to fit the fragment buffer to be reassembled : anything larger is parsed over, never copied.
+        if (m_largest_message_size > FRAGMENT_BUF_SIZE)
+            m_largest_message_size = FRAGMENT_BUF_SIZE;
         // Check that this is at least half the size of the fragment buffer.
         if (2 * m_largest_message_size > FRAGMENT_BUF_SIZE)
             printf("Warning : IConnection::SetMsgReceiver -> for safety fragment buffer(%i) needs to be at least twice the largest interface message size(%i).", m_largest_message_size, FRAGMENT_BUF_SIZE);
